@@ -66,6 +66,17 @@ def gen_cases(tier, rnd, n):
         ops = [("dump",), ("mkdir", nd, "755"), ("create", nd + b"/f", "Bnew"), ("forcebackup", nd + b"/f"), ("dump",),
                ("dump",), ("rollback",)]
         cases.append(t2.Case("c17-newdir-%d" % i, cfg, inits, ops, meta={"force_index": 3, "wp": w(nd + b"/f")}))
+    # a re-baselined file below a directory that is also reachable through a symlink which the
+    # transaction later replaces by a real directory with an entry of the same name: the order of
+    # Rollback's passes (remove created paths first, then restore) matters
+    for i, cfg in enumerate(t2.CONFIGS):
+        inits, _ = t2.gen_history(rnd, cfg, nops=1)
+        w = lambda v: t2.world_path(cfg, v)
+        td, lk = b"/tdir%d" % i, b"/tlink%d" % i
+        inits = inits + [("D", w(td), 0o755, 0, 0, 90), ("F", w(td + b"/n"), 0o644, 0, 0, 91, "Borig"), ("L", w(lk), 0, 0, 92, (t2.view_prefix(cfg) or b"") + td)]
+        ops = [("dump",), ("openwrite", td + b"/n", 0x241, "644", "Bforced"), ("forcebackup", td + b"/n"), ("dump",),
+               ("remove", lk), ("mkdir", lk, "755"), ("create", lk + b"/n", "Bnew"), ("dump",), ("rollback",)]
+        cases.append(t2.Case("c17-linkdir-%d" % i, cfg, inits, ops, meta={"force_index": 2, "wp": w(td + b"/n")}))
     for i in range(n):
         cfg = t2.CONFIGS[i % len(t2.CONFIGS)]
         inits, ops = t2.gen_history(rnd, cfg, nops=rnd.randint(1, 8))
